@@ -9,6 +9,8 @@ CONSTANTS
   FileType = TRUE
   DevMkdirNoNlinkRule = FALSE
   DevKillLeaksEaBlock = FALSE
+  DevMkdirExistsLeak = FALSE
+  DevSymlinkExistsLeak = FALSE
   NameSet = {1, 2, 3}
   MaxDirs = 3
   TotalBlocks = 12
